@@ -109,10 +109,7 @@ func inlinable(fn *ssa.Function) bool {
 		}
 		for _, ins := range b.Instrs {
 			n++
-			switch ins.(type) {
-			case *ssa.Go, *ssa.Select, *ssa.Send, *ssa.MakeChan:
-				return false
-			}
+			_ = ins // goroutines and channel operations are abstracted (see chanAssumption)
 		}
 	}
 	return n < 3000 // straight-line code only; the unrolled simple8b packers have ~700 instructions
